@@ -25,11 +25,30 @@ def rq():
     return _BIN["bin"]
 
 
-def fresh(scr, ws, first=0):
-    """materialise pristine copy + working copy; returns (orig, work)"""
+def unterminate_applied(root):
+    """strip the final newline of .pc/applied-patches (as after an edit by hand); True if something was stripped"""
+    p = os.path.join(root, ".pc", "applied-patches")
+    try:
+        with open(p, "rb") as f:
+            data = f.read()
+    except OSError:
+        return False
+    if not data.endswith(b"\n") or len(data) < 2:
+        return False
+    with open(p, "wb") as f:
+        f.write(data[:-1])
+    return True
+
+
+def fresh(scr, ws, first=0, r=None, res=None):
+    """materialise pristine copy + working copy; returns (orig, work).  With a random source and a prior applied state the
+    last line of applied-patches is sometimes left without its newline."""
     orig = os.path.join(scr, "ws.orig")
     work = os.path.join(scr, "ws")
     wsgen.materialize(ws, orig, applied=first)
+    if r is not None and first > 0 and r.random() < 0.25 and unterminate_applied(orig):
+        if res is not None:
+            res.count("prior-applied-patches-file-without-final-newline")
     runner.copy_ws(orig, work)
     return orig, work
 
@@ -90,7 +109,7 @@ def c05_worker(item):
             else:
                 pt.text = extra + pt.text
     with Scratch("c05") as scr:
-        orig, work = fresh(scr, ws, first)
+        orig, work = fresh(scr, ws, first, r, res)
         run_cwd = work
         if patches_dir != "patches":
             for d in (orig, work):
@@ -233,7 +252,7 @@ def c08_worker(item):
     args = base_args(threads=threads, backup=mode, backup_count=count, verbosity="-q") + ["push"] + (["-a"] if goal_n is None else [str(goal_n)])
     sig0 = {"driver": "seq" if threads == 1 else "par"}
     with Scratch("c08") as scr:
-        orig, work = fresh(scr, ws, first)
+        orig, work = fresh(scr, ws, first, r, res)
         rr = runner.run_rq(binary, work, args)
         res["evals"] = 1
         out = cli.check_push_outcome(res, ws, work, rr, first, gcount, sig0, [binary] + args)
@@ -413,6 +432,7 @@ def c09_worker(item):
         return a  # plain 'push' = one patch
 
     use_d = r.random() < 0.2
+    hand_edit = r.random() < 0.12    # between the invocations of the split, the final newline of applied-patches is removed
     d_form = r.choice(["%s", "%s/", "./%s", "./%s/", "abs"])
 
     def run(where, args):
@@ -478,6 +498,8 @@ def c09_worker(item):
                 nxt = np_
             rs = run(split, a)
             seq.append(a)
+            if hand_edit and rs.rc == 0 and unterminate_applied(split):
+                res.count("applied-patches-left-without-final-newline-between-invocations")
             if rs.timed_out:
                 res["inconclusive"] = "watchdog"
                 return res
@@ -817,7 +839,7 @@ def c10_worker(item):
     real = common_args + ["push"] + goal
     sig0 = {"driver": "seq" if threads == 1 else "par"}
     with Scratch("c10") as scr:
-        orig, work = fresh(scr, ws, first)
+        orig, work = fresh(scr, ws, first, r, res)
         realdir = os.path.join(scr, "real")
         runner.copy_ws(orig, realdir)
         before = runner.snapshot(work, with_meta=True)
@@ -2830,7 +2852,9 @@ def c20_worker(item):
             res.count("series-that-needs-more-than-fuzz-3-(unjudged)")
             return res
         res.count("F0=%d" % f0)
-        for fz in [x for x in (1, 2, 3, 4, 10, 1000) if x > f0]:
+        huge = r.choice([2 ** 32, 10 ** 18, 2 ** 63 - 1, 2 ** 63, 2 ** 64 - 1])   # "unlimited" as a user would write it
+        res.count("huge-limit-compared")
+        for fz in [x for x in (1, 2, 3, 4, 10, 1000, huge) if x > f0]:
             rr, o, a = run(fz, "g%d" % fz)
             res["evals"] += 1
             if rr.timed_out:
